@@ -489,6 +489,13 @@ def rule_inventory(facts, rep, crates=None, check_stale=True):
                     used_allow.add(ak)
                     rep.ok("panic-site", b["path"], inst, f"allowlist: {AL.ALLOW[ak]}", loc(b, h["node"]))
                     continue
+                # an entry about a type's own fields (`Type::*|site`) holds in every method of the type: the argument is an invariant
+                # of the private fields, kept by the who-may-write link of that entry, not a fact about one function
+                tk = f"{b['path'].rsplit('::', 1)[0]}::*|{base_key}".replace(" ", "_")
+                if tk in AL.ALLOW and b.get("impl_self") and str(b["impl_self"]) == b["path"].rsplit("::", 1)[0]:
+                    used_allow.add(tk)
+                    rep.ok("panic-site", b["path"], inst, f"allowlist (type invariant): {AL.ALLOW[tk]}", loc(b, h["node"]))
+                    continue
                 pending.append((b, h, inst, ak))
                 continue
     # a site whose locals were renamed is the audited site: an entry of the same function that no site matched literally is
